@@ -4,18 +4,18 @@ package sim
 // appended here (engines K and the disk-model self-check). Not used in multi-task runs.
 
 const (
-	EvOpen     = iota + 1 // fd bound to path; Created / Truncated say whether it mutated
-	EvWrite               // Data written at Off (Off = -1: append)
-	EvTruncate            // file of Fd (or Path when Fd < 0) cut/extended to Len
-	EvFsync               // fsync of a regular file
-	EvFsyncDir            // fsync of a directory
-	EvRename              // Path -> Path2
-	EvRemove              // Path
-	EvRemoveAll           // Path
-	EvMkdir               // Path
-	EvLink                // Path -> Path2 (hard link)
-	EvChtimes             // Path (metadata only; recorded, not a crash point of interest)
-	EvClose               // Fd closed (not a mutation)
+	EvOpen      = iota + 1 // fd bound to path; Created / Truncated say whether it mutated
+	EvWrite                // Data written at Off (Off = -1: append)
+	EvTruncate             // file of Fd (or Path when Fd < 0) cut/extended to Len
+	EvFsync                // fsync of a regular file
+	EvFsyncDir             // fsync of a directory
+	EvRename               // Path -> Path2
+	EvRemove               // Path
+	EvRemoveAll            // Path
+	EvMkdir                // Path
+	EvLink                 // Path -> Path2 (hard link)
+	EvChtimes              // Path (metadata only; recorded, not a crash point of interest)
+	EvClose                // Fd closed (not a mutation)
 )
 
 type FSEvent struct {
